@@ -10,6 +10,50 @@ def solve(task):
     out = {"name": name, "verdict": "unknown", "backend": "z3-5.1(api)", "seconds": 0.0, "model": None, "reason": ""}
     try:
         import z3
+        # pass 0: the quantifier-free part of the hypotheses alone (dropping hypotheses is sound for a proof): nonlinear
+        # arithmetic goals are decided by nlsat here, which the quantified context otherwise prevents
+        def _has_q(t, memo={}):
+            k = t.get_id()
+            if k in memo:
+                return memo[k]
+            r = z3.is_quantifier(t) or any(_has_q(c) for c in t.children())
+            memo[k] = r
+            return r
+        ARITH = {z3.Z3_OP_ADD, z3.Z3_OP_SUB, z3.Z3_OP_MUL, z3.Z3_OP_DIV, z3.Z3_OP_UMINUS, z3.Z3_OP_LE, z3.Z3_OP_GE, z3.Z3_OP_LT,
+                 z3.Z3_OP_GT, z3.Z3_OP_EQ, z3.Z3_OP_DISTINCT, z3.Z3_OP_AND, z3.Z3_OP_OR, z3.Z3_OP_NOT, z3.Z3_OP_IMPLIES,
+                 z3.Z3_OP_ITE, z3.Z3_OP_TO_REAL, z3.Z3_OP_ANUM, z3.Z3_OP_TRUE, z3.Z3_OP_FALSE, z3.Z3_OP_IFF, z3.Z3_OP_XOR}
+
+        def _purify(t, memo):
+            """abstract every non-arithmetic subterm by a constant (equal terms -> same constant): a pure polynomial problem
+            that nlsat decides; forgetting structure is sound for a proof"""
+            k = t.get_id()
+            if k in memo:
+                return memo[k]
+            if z3.is_int_value(t) or z3.is_rational_value(t) or z3.is_true(t) or z3.is_false(t):
+                r = t
+            elif z3.is_app(t) and t.decl().kind() in ARITH and all(
+                    c.sort().kind() in (z3.Z3_REAL_SORT, z3.Z3_INT_SORT, z3.Z3_BOOL_SORT) for c in t.children()):
+                ch = [_purify(c, memo) for c in t.children()]
+                r = t.decl()(*ch) if ch else t
+            else:
+                r = z3.Const("abs!%d" % k, t.sort()) if t.sort().kind() in (z3.Z3_REAL_SORT, z3.Z3_INT_SORT, z3.Z3_BOOL_SORT) else t
+            memo[k] = r
+            return r
+        try:
+            fs = z3.parse_smt2_string(smt2)
+            ground = [f for f in fs if not _has_q(f)]
+            if len(ground) < len(fs) or True:
+                memo = {}
+                pure = [_purify(f, memo) for f in ground]
+                s0 = z3.Solver()
+                s0.set("timeout", min(timeout_ms, 3000))
+                s0.add(*pure)
+                if s0.check() == z3.unsat:
+                    out["verdict"], out["backend"] = "proved", "z3-5.1(api,purified-ground-part,nlsat)"
+                    out["seconds"] = round(time.time() - t0, 3)
+                    return out
+        except Exception as e:
+            out["reason"] = "ground pass: %s" % e
         # pass 1: E-matching only (fast, complete enough for the trigger-annotated VCs); pass 2: default configuration
         s = z3.SolverFor("ALL") if False else z3.Solver()
         s.set("timeout", min(timeout_ms, 10000))
